@@ -268,7 +268,7 @@ Print Assumptions C10_trans_rowsum_refuted.
     intra-chromosomal data; all other weights positive.  ranges = consecutive chromosome bin ranges tiling [0,n);
     BlockSep: the bins of a chromosome share their chromosome id with no other bin; rows_sorted: pixels sorted by bin1 *)
 Theorem C10_balance_cis_nan_set : forall o n chroms offsets px rs,
-  o_cis o = true -> 1 <= eff_chunk o (zlen px) -> good_px n px = true -> rows_sorted px ->
+  o_cis o = true -> chunk_ok (o_chunk o) -> good_px n px = true -> rows_sorted px ->
   length (x0_bias n (o_x0 o)) = n -> NonNeg (x0_bias n (o_x0 o)) ->
   Chain 0 (combine (removelast offsets) (tl offsets)) (Z.of_nat n) ->
   (forall lo hi, In (lo, hi) (combine (removelast offsets) (tl offsets)) -> BlockSep chroms n lo hi) ->
